@@ -103,6 +103,12 @@ func init() {
 		}
 		return Const(64, uint64(v))
 	})
+	regRT("ParamOr", func(ip *Interp, fr *frame, args []Value) Value {
+		if v, ok := ip.ex.params[argName(ip, args[0])]; ok {
+			return Const(64, uint64(v))
+		}
+		return args[1]
+	})
 	regRT("Assume", func(ip *Interp, fr *frame, args []Value) Value {
 		ip.ex.Assume(asTerm(args[0]))
 		return nil
